@@ -172,6 +172,18 @@ class HopSummary:
             return IterInfo({e.attr})
         if isinstance(e, ast.Name):
             vals = [v for _t, v in astq.assignments(self.fn, e.id) if v is not None]
+            extra = self._added_elements(e.id)
+            if vals and extra:
+                # a local list that is built up: `xs = [...]` ... `xs.append((node.ancestor, f))` / `xs.extend(...)`
+                parts = [rec(v) for v in vals]
+                for kind, x in extra:
+                    if kind == "iter":
+                        parts.append(rec(x))
+                    else:
+                        if isinstance(x, (ast.Tuple, ast.List)) and k is not None and k < len(x.elts):
+                            x = x.elts[k]
+                        parts.append(self._scalar_info(x))
+                return IterInfo(set().union(*[p.rels for p in parts]), all(p.sorted for p in parts), any(p.unknown for p in parts))
             if not vals:
                 # a loop variable of a loop over a literal table of rows: `for make, members in ((f, sorted(node.a)), (g, ...))`
                 for lp in ast.walk(self.fn):
@@ -208,6 +220,89 @@ class HopSummary:
         if isinstance(e, ast.BinOp) and isinstance(e.op, ast.Add):
             a, b = rec(e.left), rec(e.right)
             return IterInfo(a.rels | b.rels, a.sorted and b.sorted, a.unknown or b.unknown)
+        return IterInfo(unknown=True)
+
+    def _rows_for(self, at: ast.AST, endpoint_expr: ast.AST):
+        """[(relation, sorted, factories named in the row, conditions of the row)] when the endpoint variable is one column of a
+        table of rows that a single loop walks - a literal table, or a local list made of a comprehension of tuples and
+        appended tuples; None if the table cannot be taken apart"""
+        if not isinstance(endpoint_expr, ast.Name):
+            return None
+        b = self.binding(endpoint_expr.id, at)
+        if b is None or b[2] is None:
+            return None
+        _tgt, it, k, _binder = b
+        rows = []          # (row tuple, generator or None, node for conditions)
+        lit = self._table_rows(it)
+        if lit:
+            rows = [(r_, None, None) for r_ in lit]
+        elif isinstance(it, ast.Name):
+            for st, v in astq.assignments(self.fn, it.id):
+                if v is None:
+                    continue
+                if isinstance(v, (ast.ListComp, ast.GeneratorExp)) and len(v.generators) == 1 and isinstance(v.elt, ast.Tuple):
+                    rows.append((v.elt, v.generators[0], st))
+                elif isinstance(v, (ast.List, ast.Tuple)) and all(isinstance(x, ast.Tuple) for x in v.elts):
+                    rows += [(x, None, st) for x in v.elts]
+                else:
+                    return None
+            for n in ast.walk(self.fn):
+                if isinstance(n, ast.Call) and isinstance(n.func, ast.Attribute) and isinstance(n.func.value, ast.Name) and \
+                        n.func.value.id == it.id and n.func.attr in ("append", "extend", "add", "update", "insert"):
+                    if n.func.attr == "append" and n.args and isinstance(n.args[0], ast.Tuple):
+                        rows.append((n.args[0], None, n))
+                    else:
+                        return None
+        else:
+            return None
+        out = []
+        for row, gen, where in rows:
+            if k >= len(row.elts):
+                return None
+            x = row.elts[k]
+            if gen is not None and isinstance(x, ast.Name):
+                kk = None
+                if isinstance(gen.target, (ast.Tuple, ast.List)):
+                    kk = next((i for i, t in enumerate(gen.target.elts) if isinstance(t, ast.Name) and t.id == x.id), None)
+                    if kk is None:
+                        return None
+                elif not (isinstance(gen.target, ast.Name) and gen.target.id == x.id):
+                    return None
+                info = self.iter_info(gen.iter, kk)
+            elif gen is None and isinstance(x, ast.Call) and call_name(x) == "sorted":
+                info = self.iter_info(x)
+            else:
+                info = self._scalar_info(x) if not isinstance(x, (ast.Call,)) or call_name(x) == "getattr" else self.iter_info(x)
+            if info.unknown or len(info.rels) != 1:
+                return None
+            facs = {n.id for e2 in row.elts for n in ast.walk(e2) if isinstance(n, ast.Name) and n.id in self.factories}
+            conds = self._conds(where) if where is not None else []
+            if gen is not None:
+                conds = conds + [ast.unparse(i) for i in gen.ifs]
+            out.append((next(iter(info.rels)), info.sorted, facs, conds))
+        return out or None
+
+    def _added_elements(self, name: str):
+        """[('elem', x)] for `name.append(x)` / `name.add(x)`, [('iter', y)] for `name.extend(y)` / `name += y`"""
+        out = []
+        for n in ast.walk(self.fn):
+            if isinstance(n, ast.Call) and isinstance(n.func, ast.Attribute) and isinstance(n.func.value, ast.Name) and \
+                    n.func.value.id == name and n.args:
+                if n.func.attr in ("append", "add"):
+                    out.append(("elem", n.args[0]))
+                elif n.func.attr in ("extend", "update"):
+                    out.append(("iter", n.args[0]))
+            elif isinstance(n, ast.AugAssign) and isinstance(n.op, ast.Add) and isinstance(n.target, ast.Name) and n.target.id == name:
+                out.append(("iter", n.value))
+        return out
+
+    def _scalar_info(self, x: ast.AST) -> IterInfo:
+        """a single neighbour: `node.ancestor` / getattr(node, "ancestor", None)"""
+        if isinstance(x, ast.Attribute) and ast.unparse(x.value) == self.node_p:
+            return IterInfo({x.attr}, True)
+        if isinstance(x, ast.Call) and call_name(x) == "getattr" and len(x.args) >= 2 and ast.unparse(x.args[0]) == self.node_p and \
+                isinstance(x.args[1], ast.Constant):
+            return IterInfo({x.args[1].value}, True)
         return IterInfo(unknown=True)
 
     def _table_rows(self, it: ast.AST):
@@ -316,6 +411,9 @@ class HopSummary:
             b = self.binding(f.id, c)
             if b is not None:
                 srcs = [b[1]] + ([r_ for r_ in (self._table_rows(b[1]) or [])])
+                if isinstance(b[1], ast.Name):      # a table built up in a local list
+                    srcs += [v for _t, v in astq.assignments(self.fn, b[1].id) if v is not None]
+                    srcs += [x for _k, x in self._added_elements(b[1].id)]
                 for src in srcs:
                     for x in ast.walk(src):
                         if isinstance(x, ast.Name) and x.id in self.factories:
@@ -387,10 +485,23 @@ class HopSummary:
                 else:
                     rel, orient, srt, binder, other = "?", f"{ast.unparse(a)}->{ast.unparse(b)}", False, None, ""
                 styles = set().union(*[self.factories[f][0] for f in fac])
+                rows = self._rows_for(c, a if orient == "in" else b) if "|" in rel else None
+                if rows:
+                    # a table of (neighbour, factory) rows walked by one loop: one fact per row, as if each had its own loop
+                    for r_rel, r_sorted, r_fac, r_conds in rows:
+                        r_styles = set().union(*[self.factories[f][0] for f in r_fac]) if r_fac else styles
+                        self.edges.append(EdgeFact(r_rel, orient, r_styles, c, self._top(c), r_sorted, r_conds + self._conds(c), other, binder))
+                    continue
                 self.edges.append(EdgeFact(rel, orient, styles, c, self._top(c), srt, self._conds(c), other, binder))
             elif isinstance(c.func, ast.Attribute) and c.func.attr in ("add", "update") and ast.unparse(c.func.value) == self.nodes_p and c.args:
                 x = c.args[0]
                 rel, _s, _b = self.endpoint(x, c)
                 conds = self._conds(c)
+                rows = self._rows_for(c, x) if "|" in rel else None
+                if rows:
+                    for r_rel, _rs, _rf, r_conds in rows:
+                        self.adds.append(AddFact(r_rel, any("not in self.added" in t and not t.startswith("not (") for t in conds),
+                                                 r_conds + conds, c, ast.unparse(x)))
+                    continue
                 self.adds.append(AddFact(rel, any("not in self.added" in t and not t.startswith("not (") for t in conds), conds, c,
                                          ast.unparse(x)))
